@@ -224,30 +224,27 @@ func linProperty(t *testing.T, st *structure, quickN, thoroughN, reps int) {
 		p, focus := genProgram(rt, st.kinds)
 		enc := p.encode(st.kinds)
 		mu.Lock()
-		msg, bad := sticky[enc]
+		failure := sticky[enc]
 		n := reps
 		if boosted {
 			n *= 30
 		}
 		mu.Unlock()
-		if bad {
-			rt.Fatalf("%s", msg)
-		}
 		nOverlap := 0
 		var sample []rec // a checked history of this program, preferably an overlapping one
-		for r := 0; r < n; r++ {
+		for r := 0; r < n && failure == ""; r++ {
 			recs := runOnce(p, st)
 			if !linearizable(st, recs) {
-				msg := fmt.Sprintf("C14 %s linearizability violated: no sequential witness for this history (repetition %d of %d)\nprogram: %s\nhistory ([invocation,response] stamps of one atomic counter):\n%s",
+				failure = fmt.Sprintf("C14 %s linearizability violated: no sequential witness for this history (repetition %d of %d)\nprogram: %s\nhistory ([invocation,response] stamps of one atomic counter):\n%s",
 					st.name, r+1, n, enc, historyString(st, recs))
 				mu.Lock()
 				if !boosted {
-					fmt.Println(msg) // first failure, before shrinking
+					fmt.Println(failure) // first failure, before shrinking
 				}
-				sticky[enc] = msg
+				sticky[enc] = failure
 				boosted = true
 				mu.Unlock()
-				rt.Fatalf("%s", msg)
+				break
 			}
 			if overlapped(recs) {
 				nOverlap++
@@ -255,6 +252,9 @@ func linProperty(t *testing.T, st *structure, quickN, thoroughN, reps int) {
 			} else if sample == nil {
 				sample = recs
 			}
+		}
+		if failure != "" {
+			rt.Fatalf("%s", failure) // the only failure site, so rapid sees one traceback
 		}
 		cls := "unfocused"
 		if focus {
